@@ -33,7 +33,7 @@ ASSUMPTIONS = ["upper-case ACGT sequences only", "gap-affine penalties mismatch 
 
 
 def plan(tier):
-    return {"cases": 640 if tier == "quick" else 8000, "shards": 16,
+    return {"cases": 640 if tier == "quick" else 32000, "shards": 16,
             "shard_budget_s": 400 if tier == "quick" else 3300}
 
 
